@@ -390,6 +390,14 @@ func (y *vSys) op(kind int) {
 			y.expect(n, topic, payload, mqos)
 		}
 		vReach("C26.slept")
+	case 13: // a name subscribed and unsubscribed again under a still active wildcard: messages on it keep arriving
+		if !b.hasSub("v/#") {
+			y.call(func() error { return cl.Subscribe("v/#", 0, y.handler("wild2")) })
+		}
+		y.call(func() error { return cl.Subscribe("v/x", 0, y.handler("exact2")) })
+		y.call(func() error { return cl.Unsubscribe("v/x") })
+		vAssert(vAnd(!b.hasSub("v/x"), b.hasSub("v/#")), "C26.unsubscribe_effect")
+		y.deliver("v/x", vC26Qos("msg_qos"))
 	case 12: // Connect again after a sleep cycle: back to active
 		if client.VState(cl) == util.StateActive {
 			return
